@@ -285,11 +285,11 @@ def search_models(chk, pid, quick):
     """Design-level: the algorithmic model of the searcher on small abstract games."""
     from check import model_check
     plan = {
-        "C03": [("MCSearch", "MCSearch_legal", False), ("MCSearch", "MCSearch_collide", True)],
+        "C03": [("MCSearch", "MCSearch_legal", False), ("MCSearch", "MCSearch_collide", True)] + ([] if quick else [("MCSearch", "MCSearch_legal_t", False)]),
         "C04": [("MCSearch", "MCSearchCtl", False), ("MCSearch", "MCSearchCtl_pinned", True), ("MCSearch", "MCSearchCtl2", False),
                 ("MCSearch", "MCSearch_mated", False), ("MCSearch", "MCSearch_mated_pinned", True)],
-        "C06": [("MCSearch", "MCSearch_mate", False)],
-        "C17": [("MCSearch", "MCSearch_history", False)],
+        "C06": [("MCSearch", "MCSearch_mate", False), ("MCSearch", "MCSearch_rich", False)],
+        "C17": [("MCSearch", "MCSearch_history", False), ("MCSearch", "MCSearch_history_t", False)],
         "C19": [("MCSearch", "MCSearch_det", False)],
     }[pid]
     for mod, cfg, expect in plan:
